@@ -17,6 +17,67 @@ NOT_DECIDED = "that a reported line/column lies inside the textual extent of the
 ITP = "interpreter::interpreter::Interpreter::"
 
 
+def statement_location_rule(ctx, fb, rule):
+    """eval_ast on REAL statements (expression statement, top-level definition, import declaration) whose inner evaluation fails: an
+    error without a location of its own is reported at the statement, one with a location there.  -> rows decided"""
+    from . import machine, absint
+    ea = fb.find(ITP + "eval_ast")
+    STMT_LOC, ERR_LOC = machine.some([10, 4]), machine.some([12, 9])
+    st_ = dict((n, i) for i, n in fb.variants("parser::parser::Statement"))
+    d_st = 0
+    for kind in ("Expression", "Definition", "ImportDeclaration"):
+        for own in (False, True):
+            key = "eval_ast/%s-statement/%s" % (kind.lower(), "located-error" if own else "unlocated-error")
+            payload = object()
+            eloc = ERR_LOC if own else machine.none()
+            E = absint.Enum(0, [payload, eloc])
+            E.name, E.adt = "Located", "error::Located"
+            inner_x = object()
+            if kind == "Expression":
+                body = [inner_x, STMT_LOC]                                  # Expression = Located<ExpressionBody>
+            elif kind == "Definition":
+                body = absint.Enum(0, [["name", [inner_x, machine.some([10, 20])]], STMT_LOC])     # Located<DefinitionBody(name, expr)>
+                body.name, body.adt = "Located", "error::Located"
+            else:
+                body = absint.Enum(0, [inner_x, STMT_LOC])
+                body.name, body.adt = "Located", "error::Located"
+            stmt = absint.Enum(st_[kind], [body])
+            stmt.name, stmt.adt = kind, "parser::parser::Statement"
+            fields_ = [x["name"] for x in fb.adt("interpreter::interpreter::Interpreter")["variants"][0]["fields"]]
+            selfv = [absint.UNKNOWN for _ in fields_]
+            if "import_end" in fields_:
+                selfv[fields_.index("import_end")] = False
+
+            def icpt2(mc, c, a, tt, g, E=E):
+                if c == ITP + "eval_expression" or c == ITP + "eval_import":
+                    return machine.err(E)
+                if c.startswith("environment::LexicalScope::"):
+                    return []
+                return machine.NOT
+            try:
+                res = machine.Machine(fb, intercept=icpt2, max_visits=6, budget=300).run(ea, [selfv, stmt, absint.UNKNOWN])
+            except (absint.Stuck, absint.Loop) as e:
+                ctx.undecided(rule, key, "cannot follow eval_ast on a %s statement (%s)" % (kind, e), where_of(ea))
+                continue
+            loc = None
+            keeps = False
+            if getattr(res, "name", None) == "Err" and res.fields and isinstance(res.fields[0], absint.Enum) and len(res.fields[0].fields) == 2:
+                loc = res.fields[0].fields[1]
+                keeps = res.fields[0].fields[0] is payload
+            want = ERR_LOC if own else STMT_LOC
+            good = keeps and loc is not None and machine.key_of(loc) == machine.key_of(want)
+            d_st += 1
+            ctx.inst(rule, key, {"ok": bool(good)})
+            ctx.oblige(bool(good))
+            if not good:
+                ctx.report(rule, key, "a run-time error %s raised while evaluating %s comes out of eval_ast with the location %r (same "
+                           "error: %s); expected %s" % ("with a location of its own" if own else "WITHOUT a location (a builtin's type / range error)",
+                                                        {"Expression": "an expression statement", "Definition": "the expression of a top-level definition",
+                                                         "ImportDeclaration": "an import declaration"}[kind], loc, bool(keeps),
+                                                        "its own location" if own else "the statement's location: every reported run-time error carries one"), where_of(ea))
+    return d_st
+
+
 def run(ctx):
     fb = ctx.fb()
     ctx.trust("rustc nightly MIR; provenance over locals (flow-insensitive)")
@@ -76,58 +137,7 @@ def run(ctx):
     # the same on REAL statements, with only the evaluation of the expression inside answered: an expression statement, a definition
     # and an import declaration whose evaluation fails with an error that has no location of its own — eval_ast reports it at the
     # statement; with a location of its own, there.  (Independent of how eval_ast is split into helpers.)
-    st_ = dict((n, i) for i, n in fb.variants("parser::parser::Statement"))
-    d_st = 0
-    for kind in ("Expression", "Definition", "ImportDeclaration"):
-        for own in (False, True):
-            key = "eval_ast/%s-statement/%s" % (kind.lower(), "located-error" if own else "unlocated-error")
-            payload = object()
-            eloc = ERR_LOC if own else machine.none()
-            E = absint.Enum(0, [payload, eloc])
-            E.name, E.adt = "Located", "error::Located"
-            inner_x = object()
-            if kind == "Expression":
-                body = [inner_x, STMT_LOC]                                  # Expression = Located<ExpressionBody>
-            elif kind == "Definition":
-                body = absint.Enum(0, [["name", [inner_x, machine.some([10, 20])]], STMT_LOC])     # Located<DefinitionBody(name, expr)>
-                body.name, body.adt = "Located", "error::Located"
-            else:
-                body = absint.Enum(0, [inner_x, STMT_LOC])
-                body.name, body.adt = "Located", "error::Located"
-            stmt = absint.Enum(st_[kind], [body])
-            stmt.name, stmt.adt = kind, "parser::parser::Statement"
-            fields_ = [x["name"] for x in fb.adt("interpreter::interpreter::Interpreter")["variants"][0]["fields"]]
-            selfv = [absint.UNKNOWN for _ in fields_]
-            if "import_end" in fields_:
-                selfv[fields_.index("import_end")] = False
-
-            def icpt2(mc, c, a, tt, g, E=E):
-                if c == ITP + "eval_expression" or c == ITP + "eval_import":
-                    return machine.err(E)
-                if c.startswith("environment::LexicalScope::"):
-                    return []
-                return machine.NOT
-            try:
-                res = machine.Machine(fb, intercept=icpt2, max_visits=6, budget=300).run(ea, [selfv, stmt, absint.UNKNOWN])
-            except (absint.Stuck, absint.Loop) as e:
-                ctx.undecided("C15-fallback", key, "cannot follow eval_ast on a %s statement (%s)" % (kind, e), where_of(ea))
-                continue
-            loc = None
-            keeps = False
-            if getattr(res, "name", None) == "Err" and res.fields and isinstance(res.fields[0], absint.Enum) and len(res.fields[0].fields) == 2:
-                loc = res.fields[0].fields[1]
-                keeps = res.fields[0].fields[0] is payload
-            want = ERR_LOC if own else STMT_LOC
-            good = keeps and loc is not None and machine.key_of(loc) == machine.key_of(want)
-            d_st += 1
-            ctx.inst("C15-fallback", key, {"ok": bool(good)})
-            ctx.oblige(bool(good))
-            if not good:
-                ctx.report("C15-fallback", key, "a run-time error %s raised while evaluating %s comes out of eval_ast with the location %r (same "
-                           "error: %s); expected %s" % ("with a location of its own" if own else "WITHOUT a location (a builtin's type / range error)",
-                                                        {"Expression": "an expression statement", "Definition": "the expression of a top-level definition",
-                                                         "ImportDeclaration": "an import declaration"}[kind], loc, bool(keeps),
-                                                        "its own location" if own else "the statement's location: every reported run-time error carries one"), where_of(ea))
+    d_st = statement_location_rule(ctx, fb, "C15-fallback")
     p = Prov(ea)
     ors = [(b, t) for b, t in ea.calls() if callee_matches(t, "std::option::Option::or", "std::option::Option::or_else",
                                                            "std::option::Option::xor", "std::option::Option::and")]
